@@ -154,6 +154,12 @@ GENERIC = {
     "flatten_source_length": ("fn g<N: ArrayLength + Mul<M>, M: ArrayLength, S: Flatten<u8, N, M>>() where Prod<N, M>: ArrayLength { same(P::<<S as GenericSequence<GenericArray<u8, N>>>::Length>, P::<%s>); }", "M", "N"),
     "flatten_output_length": ("fn g<N: ArrayLength + Mul<M>, M: ArrayLength, S: Flatten<u8, N, M>>() where Prod<N, M>: ArrayLength { same(P::<<S::Output as GenericSequence<u8>>::Length>, P::<%s>); }", "Prod<N, M>", "M"),
     "unflatten_source_length": ("fn g<NM: ArrayLength + Div<N>, N: ArrayLength, S: Unflatten<u8, NM, N>>() where Quot<NM, N>: ArrayLength { same(P::<<S as GenericSequence<u8>>::Length>, P::<%s>); }", "NM", "N"),
+    # the associated result types are themselves sequences (what a generic caller chains further operations on)
+    "split_first_is_sequence": ("fn needs<X: GenericSequence<u8>>() {}\nfn g<K: ArrayLength, S: Split<u8, K>>() { needs::<%s>(); }", "S::First", "K"),
+    "split_second_is_sequence": ("fn needs<X: GenericSequence<u8>>() {}\nfn g<K: ArrayLength, S: Split<u8, K>>() { needs::<%s>(); }", "S::Second", "K"),
+    "concat_output_is_sequence": ("fn needs<X: GenericSequence<u8>>() {}\nfn g<M: ArrayLength, S: Concat<u8, M>>() { needs::<%s>(); }", "S::Output", "M"),
+    "remove_output_is_sequence": ("fn needs<X: GenericSequence<u8>>() {}\nfn g<N: ArrayLength, S: Remove<u8, N>>() { needs::<%s>(); }", "S::Output", "N"),
+    "sequence_from_iterator": ("fn needf<X: core::iter::FromIterator<u8>>() {}\nfn g<S: GenericSequence<u8>>() { needf::<%s>(); }", "S::Sequence", "S"),
     "unflatten_output_length": ("fn g<NM: ArrayLength + Div<N>, N: ArrayLength, S: Unflatten<u8, NM, N>>() where Quot<NM, N>: ArrayLength { same(P::<<S::Output as GenericSequence<GenericArray<u8, N>>>::Length>, P::<%s>); }", "Quot<NM, N>", "NM"),
 }
 
@@ -179,7 +185,8 @@ PATH = {"Default": "core::default::Default", "Debug": "core::fmt::Debug", "Parti
 def bound_program(d):
     tr = d["tr"]
     cont = "GenericArray" if d["cont"] == "array" else "GenericArrayIter"
-    impls = "\n".join(IMPLS[x] for x in SUPER[tr] + [tr]) if d["twin"] else ""
+    has = {"none": [], "super": SUPER[tr], "full": SUPER[tr] + [tr]}[d["elem"]]
+    impls = "\n".join(IMPLS[x] for x in has)
     return PRELUDE + "struct E;\n%s\nfn need<X: %s>() {}\nfn main() {\n    need::<%s<E, U3>>();\n}\n" % (impls, PATH[tr], cont)
 
 
